@@ -309,6 +309,15 @@ def gen_ms_datetime(rng):
     return base
 
 
+def f32_scalar_hex(rng):
+    """a float32 for a scalar property.  Scalars pass through Python floats (float32 -> double ->
+    float32), where the hardware quiets signalling NaNs and drops nothing else: NaNs are replaced by the
+    canonical quiet NaN so that the expected bytes are well defined (array data keeps every payload)."""
+    b = special_bytes(rng, "float32", 1)
+    v = struct.unpack("<f", b)[0]
+    return (b"\x00\x00\xc0\x7f" if v != v else b).hex()
+
+
 def gen_prop(rng, cfg):
     """one property value: [kind, payload]"""
     c = rng.random()
@@ -329,7 +338,7 @@ def gen_prop(rng, cfg):
     if c < 0.66:
         dt = rng.choice(["int8", "int16", "int32", "int64", "uint8", "uint16", "uint32", "uint64", "float32",
                          "float64"])
-        return ["npscalar", [dt, special_bytes(rng, dt, 1).hex()]]
+        return ["npscalar", [dt, f32_scalar_hex(rng) if dt == "float32" else special_bytes(rng, dt, 1).hex()]]
     if c < 0.665 and cfg["rejects"]:
         return ["npscalar_bad", rng.choice(["complex64", "complex128", "float16"])]
     if c < 0.83:
@@ -339,7 +348,7 @@ def gen_prop(rng, cfg):
             lo, hi = INT_CLASSES[TYPE_NP[ty]]
             return ["wrapper", [w, rng.choice([lo, hi, 0, 1, rng.randint(lo, hi)])]]
         if w == "SingleFloat":
-            return ["wrapper", [w, special_bytes(rng, "float32", 1).hex()]]
+            return ["wrapper", [w, f32_scalar_hex(rng)]]
         if w == "DoubleFloat":
             return ["wrapper", [w, special_bytes(rng, "float64", 1).hex()]]
         if w == "String":
@@ -1083,7 +1092,7 @@ def process(run, cases, prop):
                                   "(string index length 20) [" + describe(case) + "]", case)
                 continue
             rc, out = H.coq_print_terms(run.pid, IMPORTS, [
-                "match (do low <- lower_file (fst %s); wr_file low) with Ok (d, i) => (true, length d, length i) "
+                "match (do low <- lower_file (fst %s); wr_file low) with Ok (d, i) => (true, List.length d, List.length i) "
                 "| Err _ => (false, O, O) end" % file_cases[i]], tag="show%d" % i)
             run.violation("corr-writer", "Model/Writer.v and TdmsWriter disagree [" + describe(case) + "]: "
                           "implementation %s" % ("refused the call" if data is None else "wrote %d bytes" % len(data)),
